@@ -84,9 +84,6 @@ theorem parseLengthPrefixed_append (b' tail : Bytes) (f : Frame) (rest' : Bytes)
         cases h
         rfl
       · simp only [hs, if_false, Bool.false_eq_true] at h ⊢
-        by_cases hbig : size ≥ 2 ^ 63
-        · simp only [hbig, if_true] at h; cases h
-        simp only [hbig, if_false] at h ⊢
         cases hd : decFrame (List.take size r') with
         | error e => rw [hd] at h; cases h
         | ok fr =>
@@ -124,11 +121,9 @@ theorem parseLengthPrefixed_length_lt (b : Bytes) (f : Frame) (rest : Bytes)
         · cases h
         · split at h
           · cases h
-          · split at h
-            · cases h
-            · cases h
-              simp only [List.length_drop]
-              omega
+          · cases h
+            simp only [List.length_drop]
+            omega
 
 /-! ## `restFrames` -/
 
